@@ -246,6 +246,9 @@ def adjust_leftover_buffer(buffers: deque[memoryview], nbytes: int) -> None:
         else:
             buffers.appendleft(b[nbytes:])
             break
+    # Drop the empty buffers left at the head: a sendmsg() loop that runs "while buffers" would never consume them.
+    while buffers and buffers[0].nbytes == 0:
+        buffers.popleft()
 
 
 def is_socket_connected(sock: ISocket) -> bool:
